@@ -281,6 +281,26 @@ v("b94-save-rename-plain-wrapper", ["C04", "C03", "C11"], "the directory rename 
 v("b95-import-init-explicit-validate", ["C16"], "validating init spelled out",
   (IE, "    else:\n        job.init()\n    return dst", "    else:\n        job.init(validate_statepoint=True)\n    return dst"))
 
+v("b96-float-hash-negated", ["C06", "C18", "C07"], "another hash shift for _float keys; separation is guaranteed by the type-exclusive __eq__",
+  (SI, "        return super().__hash__() + 1\n", "        return -super().__hash__()\n"))
+
+
+# ---- variants for the rules added after round 8
+v("b97-float-pattern-noncapturing", ["C16"], "float pattern with a non-capturing group",
+  (IE, "    \"float\": r\"[+-]?([0-9]*[\\.])?[0-9]+\",", "    \"float\": r\"[+-]?(?:[0-9]*[\\.])?[0-9]+\","))
+v("b98-collect-migrations-flipped", ["C20"], "strict 'newer' test written the other way round",
+  (MIG, "    if current_schema_version > schema_version:", "    if schema_version < current_schema_version:"))
+v("b99-update-cache-guard-order", ["C08", "C03", "C10"], "operands of the id-set comparison exchanged",
+  (P, "        if cache is None or set(cache) != cached_ids:", "        if cache is None or cached_ids != set(cache):"))
+v("b100-root-keys-partition", ["C07", "C06"], "first component taken with partition",
+  (FPA, "            yield key.split(\".\", 1)[0]", "            yield key.partition(\".\")[0]"))
+v("b101-node-get-child-local", ["C17"], "child node bound to a local",
+  (LV, "        return self.children.setdefault(name, type(self)(name))", "        child = self.children.setdefault(name, type(self)(name))\n        return child"))
+v("b102-is-json-like-slices", ["C07", "C06"], "bracket test written with slices",
+  (FPA, "    return (q[0] == \"{\" and q[-1] == \"}\") or (q[0] == \"[\" and q[-1] == \"]\")", "    return q[:1] + q[-1:] in (\"{}\", \"[]\") and len(q) >= 2"))
+v("b103-float-eq-isinstance", ["C06", "C18"], "type-exclusive equality spelled with isinstance",
+  (SI, "        return type(other) is _float and float(self) == float(other)", "        return isinstance(other, _float) and float(self) == float(other)"))
+
 
 def main():
     os.makedirs(OUT, exist_ok=True)
